@@ -2,6 +2,7 @@ import NixModel.Index
 import NixModel.NDArray
 import NixModel.Spec.C01
 import NixModel.Dump
+import NixModel.Drive.DimDescSt
 namespace Nix.Drive
 
 /-- the axis a trace is currently talking about (index family) -/
@@ -34,5 +35,6 @@ structure DState where
   axis : AxisDesc := .none
   arr : Option ArrSt := none
   store : StoreSt := {}
+  dd : Option DimDescSt.DDSt := none      -- dimension-descriptor family (C13)
 
 end Nix.Drive
